@@ -44,6 +44,19 @@ void ledger_track(bool on);
 // everything else with EAI_NONAME at once (no DNS in the sandbox); log (node, service, flags)
 void gai_offline(bool on);
 
+// raw byte capture (additive, used by C18/C15): every byte a successful send() on a captured
+// descriptor handed to the kernel is appended to that descriptor's capture buffer
+void capture(int fd, bool on);
+std::string take_capture(int fd);          // and clear
+// persistent segmentation: every recv (sys="recv") / send (sys="send") on fd is capped at k bytes (0 = off);
+// like an endless supply of `short k` directives, without consuming the script
+void cap(std::string const &sys, int fd, long k);
+// append a line of the caller's own to the call log (keeps one total order with the OS calls)
+void log_note(std::string const &line);
+// how long (ms, real time) an unlimited poll under virtual time waits for another thread before
+// declaring a hang (default 3000)
+void hang_wait_ms(int ms);
+
 // statistics
 long count(std::string const &sys);
 long scripted_fired();
